@@ -26,13 +26,14 @@ Definition requested (o : op) : list (point * Z) :=
   | OpFillSolid r c => map (fun p => (p, c)) (points r)
   | OpFillContiguous r cs => zip (points r) cs
   | OpClear c => map (fun p => (p, c)) (points (R (P 0 0) (S SIZE SIZE)))
-  | OpSetPixel _ _ | OpSetAllowOverdraw _ | OpSetAllowOob _ => []
+  | OpSetPixel _ _ | OpSetPixels _ _ | OpSetAllowOverdraw _ | OpSetAllowOob _ => []
   end.
 
 (* what an operation does to single cells: (point, new content); set_pixel may also erase *)
 Definition events (o : op) : list (point * option Z) :=
   match o with
   | OpSetPixel p v => [(p, v)]
+  | OpSetPixels l v => map (fun p => (p, v)) l
   | _ => map (fun pc : point * Z => (fst pc, Some (snd pc))) (requested o)
   end.
 
@@ -59,7 +60,7 @@ Fixpoint last_write (p : point) (ws : list (point * Z)) : option Z :=
   end.
 
 Definition is_draw (o : op) : bool :=
-  match o with OpSetPixel _ _ | OpSetAllowOverdraw _ | OpSetAllowOob _ => false | _ => true end.
+  match o with OpSetPixel _ _ | OpSetPixels _ _ | OpSetAllowOverdraw _ | OpSetAllowOob _ => false | _ => true end.
 
 (* the panic rule of the property, as a scan over the requested writes: `seen` = cells drawn so far.
    A write outside the display offends iff out-of-bounds drawing is not allowed (otherwise it is skipped);
@@ -247,6 +248,36 @@ Proof.
     split; [reflexivity|]. split; [congruence|]. intros q. reflexivity.
 Qed.
 
+Lemma set_pixels_spec l : forall d v,
+  set_pixels d l v =
+    if forallb in_displayb l then Ok (fold_left (fun acc p => put acc p v) l d) else Panic PSetPixel.
+Proof.
+  induction l as [|p t IH]; intros d v; cbn [set_pixels forallb fold_left]; [reflexivity|].
+  rewrite set_pixel_spec. destruct (in_displayb p); cbn [bind andb]; [apply IH|reflexivity].
+Qed.
+
+Lemma gp_fold_put l : forall d v q,
+  Forall in_display l ->
+  gp (fold_left (fun acc p => put acc p v) l d) q = if existsb (point_eqb q) l then v else gp d q.
+Proof.
+  induction l as [|p t IH]; intros d v q Hl; cbn [fold_left existsb]; [reflexivity|].
+  inversion Hl as [|? ? Hp Ht]; subst. rewrite IH by assumption. rewrite gp_put by assumption.
+  destruct (existsb (point_eqb q) t); [rewrite orb_true_r; reflexivity|]. rewrite orb_false_r. reflexivity.
+Qed.
+
+
+Lemma flags_fold_put l : forall d v,
+  allow_overdraw (fold_left (fun acc p => put acc p v) l d) = allow_overdraw d /\
+  allow_oob (fold_left (fun acc p => put acc p v) l d) = allow_oob d.
+Proof. induction l as [|p t IH]; intros d v; cbn [fold_left]; [split; reflexivity|]. apply (IH (put d p v) v). Qed.
+
+Lemma last_event_const q l v :
+  last_event q (map (fun p : point => (p, v)) l) = if existsb (point_eqb q) l then Some v else None.
+Proof.
+  induction l as [|p t IH]; cbn [map last_event existsb]; [reflexivity|]. rewrite IH.
+  destruct (existsb (point_eqb q) t); [rewrite orb_true_r; reflexivity|]. rewrite orb_false_r. reflexivity.
+Qed.
+
 (* ===== Part 2: histories ============================================================================= *)
 
 Lemma fold_panic {A} (f : A -> op -> result A) ops k :
@@ -336,6 +367,10 @@ Proof.
     + rewrite set_pixel_spec. destruct (in_displayb p) eqn:E; [|discriminate].
       intros H; inversion H; subst d'. intros q Hq. rewrite gp_put by (apply in_displayb_spec, E).
       destruct (point_eqb q p); reflexivity.
+    + rewrite set_pixels_spec. destruct (forallb in_displayb l) eqn:E; [|discriminate].
+      intros H; inversion H; subst d'. intros q Hq. rewrite last_event_const, gp_fold_put.
+      * destruct (existsb (point_eqb q) l); reflexivity.
+      * apply Forall_forall. intros x Hx. rewrite forallb_forall in E. apply in_displayb_spec, E, Hx.
     + intros H; inversion H; subst. reflexivity.
     + intros H; inversion H; subst. reflexivity.
 Qed.
@@ -479,7 +514,8 @@ Proof.
   destruct (is_draw o) eqn:Ed.
   - rewrite requested_draw by assumption. intros H. apply draw_iter_panic_kind in H. tauto.
   - destruct o; try discriminate; cbn [apply_op]; try discriminate.
-    rewrite set_pixel_spec. destruct (in_displayb p); [discriminate|]. intros H; inversion H. auto.
+    + rewrite set_pixel_spec. destruct (in_displayb p); [discriminate|]. intros H; inversion H. auto.
+    + rewrite set_pixels_spec. destruct (forallb in_displayb l); [discriminate|]. intros H; inversion H. auto.
 Qed.
 
 (* ===== Part 3: affected_area ========================================================================= *)
@@ -1548,6 +1584,8 @@ Fixpoint ref_pixels (s : rstate) (ws : list (point * Z)) : result rstate :=
 Definition ref_op (s : rstate) (o : op) : result rstate :=
   match o with
   | OpSetPixel p v => if in_displayb p then Ok (RS (r_ao s) (r_ab s) (r_evs s ++ [(p, v)])) else Panic PSetPixel
+  | OpSetPixels l v =>
+      if forallb in_displayb l then Ok (RS (r_ao s) (r_ab s) (r_evs s ++ map (fun p => (p, v)) l)) else Panic PSetPixel
   | OpSetAllowOverdraw b => Ok (RS b (r_ab s) (r_evs s))
   | OpSetAllowOob b => Ok (RS (r_ao s) b (r_evs s))
   | _ => ref_pixels s (requested o)
@@ -1594,6 +1632,12 @@ Proof.
     + rewrite set_pixel_spec. destruct (in_displayb p) eqn:Ep; [|reflexivity].
       split; [exact Ha|]. split; [exact Hb|]. cbn [r_evs]. intros q Hq.
       rewrite gp_put, content_snoc by (apply in_displayb_spec, Ep). destruct (point_eqb q p); [reflexivity|apply Hg, Hq].
+    + rewrite set_pixels_spec. destruct (forallb in_displayb l) eqn:El; [|reflexivity].
+      destruct (flags_fold_put l d v) as [Fa Fb].
+      split; [rewrite Fa; exact Ha|]. split; [rewrite Fb; exact Hb|]. cbn [r_evs]. intros q Hq.
+      rewrite gp_fold_put by (apply Forall_forall; intros x Hx; rewrite forallb_forall in El; apply in_displayb_spec, El, Hx).
+      unfold content. rewrite last_event_app, last_event_const.
+      destruct (existsb (point_eqb q) l); [reflexivity|]. apply Hg, Hq.
     + split; [reflexivity|]. split; [exact Hb|exact Hg].
     + split; [exact Ha|]. split; [reflexivity|exact Hg].
 Qed.
@@ -1660,23 +1704,6 @@ Proof.
   exists t. split; [assumption|]. intros p. rewrite !get_pixel_gp, Hg, existsb_points_bb, gp_new. f_equal.
   destruct (in_displayb p) eqn:Ep; [reflexivity|].
   rewrite gp_outside by (apply in_displayb_false, Ep). reflexivity.
-Qed.
-
-Lemma set_pixels_spec l : forall d v,
-  set_pixels d l v =
-    if forallb in_displayb l then Ok (fold_left (fun acc p => put acc p v) l d) else Panic PSetPixel.
-Proof.
-  induction l as [|p t IH]; intros d v; cbn [set_pixels forallb fold_left]; [reflexivity|].
-  rewrite set_pixel_spec. destruct (in_displayb p); cbn [bind andb]; [apply IH|reflexivity].
-Qed.
-
-Lemma gp_fold_put l : forall d v q,
-  Forall in_display l ->
-  gp (fold_left (fun acc p => put acc p v) l d) q = if existsb (point_eqb q) l then v else gp d q.
-Proof.
-  induction l as [|p t IH]; intros d v q Hl; cbn [fold_left existsb]; [reflexivity|].
-  inversion Hl as [|? ? Hp Ht]; subst. rewrite IH by assumption. rewrite gp_put by assumption.
-  destruct (existsb (point_eqb q) t); [rewrite orb_true_r; reflexivity|]. rewrite orb_false_r. reflexivity.
 Qed.
 
 (* from_points: panics (set_pixel's assertion) exactly when some point is outside the display; otherwise exactly the
@@ -1794,4 +1821,194 @@ Proof.
       constructor.
       * rewrite (mapM_length _ _ _ E1). rewrite Forall_forall in HRr. apply HRr, Hin. left. reflexivity.
       * apply IH; [intros r' Hr'; apply Hin; right; exact Hr'|reflexivity].
+Qed.
+
+(* ===== Part 9 (audit round 1) ========================================================================= *)
+(* the default arm of color_to_char: a character that is neither ' ' nor the character of any colour *)
+Definition default_ok (m : mapping) : bool :=
+  match m_default m with
+  | None => true
+  | Some ch => negb (existsb (Z.eqb ch) (charset m)) && negb (ch =? SPACE)
+  end.
+
+Lemma all_default_ok : forallb default_ok all_mappings = true.
+Proof. vm_compute. reflexivity. Qed.
+
+(* the default arm is '?' wherever there is one (BinaryColor, Gray2, Gray4 have none: total tables) *)
+Lemma default_chars : Forall (fun m => m_default m = None \/ m_default m = Some 63) all_mappings.
+Proof. repeat constructor; (left; reflexivity) || (right; reflexivity). Qed.
+
+Lemma lookup_In k l v : lookup k l = Some v -> In (k, v) l.
+Proof.
+  induction l as [|[a b] t IH]; cbn [lookup]; [discriminate|].
+  destruct (a =? k) eqn:Ea; [intros H; inversion H; subst; left; f_equal; lia|intros H; right; apply IH, H].
+Qed.
+
+(* whatever Debug prints for a colour is not ' ', and if it is a character of the set then the colour is THE colour of
+   that character: colours outside the set never print as a pattern character (they print as the default '?') *)
+Theorem debug_char_identifies_colour m v ch :
+  In m all_mappings -> color_to_char m v = Ok ch ->
+  ch <> SPACE /\ (In ch (charset m) -> In v (colset m) /\ char_to_color m ch = Ok v).
+Proof.
+  intros Hm E. unfold color_to_char in E. destruct (lookup v (m_col2c m)) as [c|] eqn:El.
+  - inversion E; subst c. pose proof (lookup_In _ _ _ El) as Hrow.
+    assert (In v (colset m)) as Hv by (unfold colset; apply in_map_iff; exists (v, ch); auto).
+    destruct (colset_roundtrip m v Hm Hv) as [ch' [E1 [E2 [E3 _]]]].
+    assert (ch' = ch) by (unfold color_to_char in E1; rewrite El in E1; inversion E1; reflexivity).
+    subst ch'. split; [assumption|]. intros _. split; assumption.
+  - pose proof all_default_ok as H. rewrite forallb_forall in H. specialize (H m Hm). unfold default_ok in H.
+    destruct (m_default m) as [c|]; [|discriminate]. inversion E; subst c.
+    apply andb_true_iff in H. destruct H as [H1 H2]. split; [lia|]. intros Hin. exfalso.
+    assert (existsb (Z.eqb ch) (charset m) = true) as Hex by (apply existsb_exists; exists ch; split; [assumption|apply Z.eqb_refl]).
+    rewrite Hex in H1. discriminate.
+Qed.
+
+(* distinct colours of the set print distinct characters *)
+Corollary debug_chars_distinct m v1 v2 ch :
+  In m all_mappings -> In v1 (colset m) -> color_to_char m v1 = Ok ch -> color_to_char m v2 = Ok ch -> v1 = v2.
+Proof.
+  intros Hm H1 E1 E2. destruct (colset_roundtrip m v1 Hm H1) as [c [F1 [F2 [_ F4]]]]. rewrite E1 in F1. inversion F1; subst c.
+  destruct (debug_char_identifies_colour m v2 ch Hm E2) as [_ H]. destruct (H F4) as [_ G]. congruence.
+Qed.
+
+Lemma get_pixel_total d p : exists c, get_pixel d p = Ok c.
+Proof. eexists. apply get_pixel_gp. Qed.
+
+(* the eight named colours K R G B Y M C W of every RGB type, as raw values (channel maxima at the type's bit positions) *)
+Lemma rgb_colour_sets :
+  colset map_Rgb332 = [0; 224; 28; 3; 252; 227; 31; 255] /\
+  colset map_Rgb444 = [0; 3840; 240; 15; 4080; 3855; 255; 4095] /\
+  colset map_Rgb555 = [0; 31744; 992; 31; 32736; 31775; 1023; 32767] /\
+  colset map_Bgr555 = [0; 31; 992; 31744; 1023; 31775; 32736; 32767] /\
+  colset map_Rgb565 = [0; 63488; 2016; 31; 65504; 63519; 2047; 65535] /\
+  colset map_Bgr565 = [0; 31; 2016; 63488; 2047; 63519; 65504; 65535] /\
+  colset map_Rgb888 = [0; 16711680; 65280; 255; 16776960; 16711935; 65535; 16777215] /\
+  colset map_Bgr888 = [0; 255; 65280; 16711680; 65535; 16711935; 16776960; 16777215].
+Proof. repeat split; reflexivity. Qed.
+
+(* ---- the Debug text in terms of the printed rows ------------------------------------------------------ *)
+Lemma empty_rows_le d : (empty_rows d <= NS)%nat.
+Proof.
+  rewrite empty_rows_eq. pose proof (chunks_cells d) as HR. cbv zeta in HR. destruct HR as [_ [HRl _]].
+  pose proof (trailing_split row_is_empty (chunks NS (cells_list d))) as HT. cbv zeta in HT. destruct HT as [He _].
+  rewrite HRl in He. exact He.
+Qed.
+
+Lemma debug_rows_length m d rows : debug_rows m d = Ok rows -> length rows = (NS - empty_rows d)%nat.
+Proof.
+  rewrite debug_rows_eq. intros H. apply mapM_length in H. rewrite H, firstn_length.
+  pose proof (chunks_cells d) as HR. cbv zeta in HR. destruct HR as [_ [HRl _]]. rewrite HRl. lia.
+Qed.
+
+(* what Debug writes: header, the rows each followed by '\n', "(n empty rows skipped)" with n = 64 - printed rows when n > 0, "]" *)
+Theorem debug_string_rows m d rows :
+  debug_rows m d = Ok rows ->
+  zlen rows <= SIZE /\
+  debug_string m d =
+    Ok (STR_HEAD ++ [10] ++ concat (map (fun r => r ++ [10]) rows)
+        ++ (if zlen rows <? SIZE then [40] ++ decimal (SIZE - zlen rows) ++ STR_SKIP ++ [10] else []) ++ [93; 10]).
+Proof.
+  intros H. pose proof (debug_rows_length m d rows H) as HL. pose proof (empty_rows_le d) as He.
+  assert (Z.of_nat (empty_rows d) = SIZE - zlen rows) as Ee by (unfold zlen; rewrite HL, <- NS_SIZE; lia).
+  split; [unfold zlen; rewrite HL, <- NS_SIZE; lia|].
+  unfold debug_string. rewrite H. cbn [bind]. cbv zeta. rewrite Ee.
+  replace (0 <? SIZE - zlen rows) with (zlen rows <? SIZE) by lia. reflexivity.
+Qed.
+
+(* the number is printed in decimal *)
+Lemma decimal_small : forallb (fun n => match decimal n with
+                                         | [a] => (n <? 10) && (a =? 48 + n)
+                                         | [a; b] => (10 <=? n) && (a =? 48 + n / 10) && (b =? 48 + n mod 10)
+                                         | _ => false end) (range 0 100) = true.
+Proof. vm_compute. reflexivity. Qed.
+
+Theorem decimal_spec n : 0 <= n < 100 -> decimal n = if n <? 10 then [48 + n] else [48 + n / 10; 48 + n mod 10].
+Proof.
+  intros Hn. pose proof decimal_small as H. rewrite forallb_forall in H. specialize (H n (proj2 (In_range _ _ _) Hn)).
+  destruct (decimal n) as [|a [|b [|c t]]]; try discriminate.
+  - apply andb_true_iff in H. destruct H as [H1 H2]. rewrite H1. f_equal. lia.
+  - apply andb_true_iff in H. destruct H as [H H3]. apply andb_true_iff in H. destruct H as [H1 H2].
+    replace (n <? 10) with false by lia. f_equal; [lia|f_equal; lia].
+Qed.
+
+(* ---- patterns in any case: lower-case hex digits are accepted and print back in upper case ------------- *)
+Definition char_accepted (m : mapping) (ch : Z) : Prop := ch = SPACE \/ exists v, char_to_color m ch = Ok v.
+Definition pattern_wf_any (m : mapping) (pat : list (list Z)) : Prop :=
+  (length pat <= NS)%nat /\ (exists w, (w <= NS)%nat /\ Forall (fun r => length r = w) pat) /\
+  Forall (Forall (char_accepted m)) pat.
+
+Lemma upper_space ch : ascii_upper ch = SPACE <-> ch = SPACE.
+Proof. unfold ascii_upper, SPACE. destruct ((97 <=? ch) && (ch <=? 122)) eqn:E; lia. Qed.
+
+Lemma accepted_upper m ch :
+  In m all_mappings -> char_accepted m ch ->
+  char_valid m (ascii_upper ch) /\ pattern_char m (ascii_upper ch) = pattern_char m ch.
+Proof.
+  intros Hm [->|[v E]].
+  - split; [left; reflexivity|reflexivity].
+  - destruct (Z.eq_dec ch SPACE) as [->|Hne]; [split; [left; reflexivity|reflexivity]|].
+    destruct (accepted_chars_roundtrip m ch v Hm E) as [E1 Hin]. split; [right; exact Hin|].
+    destruct (charset_roundtrip m _ Hm Hin) as [v' [F1 [F2 [F3 F4]]]].
+    assert (v' = v) by (apply (debug_chars_distinct m v' v (ascii_upper ch) Hm F4 F2 E1)). subst v'.
+    unfold pattern_char. replace (ch =? SPACE) with false by lia.
+    replace (ascii_upper ch =? SPACE) with false by (pose proof (upper_space ch); lia).
+    rewrite E, F1. reflexivity.
+Qed.
+
+Lemma mapM_map_ext {A B} (f : A -> result B) (g : A -> A) l :
+  (forall x, In x l -> f (g x) = f x) -> mapM f (map g l) = mapM f l.
+Proof.
+  induction l as [|x l IH]; intros H; cbn [map mapM]; [reflexivity|].
+  rewrite (H x (or_introl eq_refl)), IH; [reflexivity|]. intros y Hy. apply H. right. exact Hy.
+Qed.
+
+Lemma from_pattern_upper m pat :
+  In m all_mappings -> Forall (Forall (char_accepted m)) pat ->
+  from_pattern m (map (map ascii_upper) pat) = from_pattern m pat.
+Proof.
+  intros Hm Hv. unfold from_pattern. cbv zeta.
+  assert ((match map (map ascii_upper) pat with [] => 0 | r :: _ => zlen r end) = (match pat with [] => 0 | r :: _ => zlen r end)) as Ew
+    by (destruct pat; cbn [map]; [reflexivity|unfold zlen; rewrite map_length; reflexivity]).
+  rewrite Ew. set (w := match pat with [] => 0 | r :: _ => zlen r end).
+  replace (zlen (map (map ascii_upper) pat)) with (zlen pat) by (unfold zlen; rewrite map_length; reflexivity).
+  replace (forallb (fun r => zlen r =? w) (map (map ascii_upper) pat)) with (forallb (fun r => zlen r =? w) pat).
+  2:{ clearbody w. clear. induction pat as [|r t IH]; cbn [map forallb]; [reflexivity|]. rewrite <- IH. unfold zlen at 3. rewrite map_length. reflexivity. }
+  rewrite (mapM_map_ext _ (map ascii_upper) pat); [reflexivity|].
+  intros r Hr. f_equal. rewrite Forall_forall in Hv. specialize (Hv r Hr). rewrite Forall_forall in Hv.
+  apply mapM_map_ext. intros ch Hc. apply accepted_upper; auto.
+Qed.
+
+Theorem pattern_then_debug_any_case m pat :
+  In m all_mappings -> pattern_wf_any m pat ->
+  exists d, from_pattern m pat = Ok d /\
+    debug_rows m d = Ok (normalise (map (map ascii_upper) pat)) /\
+    forall x y, 0 <= x < SIZE -> 0 <= y < SIZE ->
+      exists c, get_pixel d (P x y) = Ok c /\ pattern_char m (nth (Z.to_nat x) (nth (Z.to_nat y) pat []) SPACE) = Ok c.
+Proof.
+  intros Hm [Hh [[w [Hw Hrows]] Hv]].
+  assert (pattern_wf m (map (map ascii_upper) pat)) as Hwf.
+  { split; [rewrite map_length; exact Hh|]. split.
+    - exists w. split; [exact Hw|]. apply Forall_forall. intros r Hr. apply in_map_iff in Hr. destruct Hr as [r0 [<- Hr0]].
+      rewrite map_length. rewrite Forall_forall in Hrows. apply Hrows, Hr0.
+    - apply Forall_forall. intros r Hr. apply in_map_iff in Hr. destruct Hr as [r0 [<- Hr0]].
+      apply Forall_forall. intros ch Hc. apply in_map_iff in Hc. destruct Hc as [c0 [<- Hc0]].
+      rewrite Forall_forall in Hv. specialize (Hv r0 Hr0). rewrite Forall_forall in Hv. apply accepted_upper; auto. }
+  destruct (pattern_then_debug m _ Hm Hwf) as [d [E [HD Hpix]]].
+  rewrite from_pattern_upper in E by assumption.
+  exists d. split; [exact E|]. split; [exact HD|]. intros x y Hx Hy.
+  destruct (Hpix x y Hx Hy) as [c [Ec [_ Hc]]]. exists c. split; [exact Ec|].
+  set (ch := nth (Z.to_nat x) (nth (Z.to_nat y) pat []) SPACE).
+  assert (nth (Z.to_nat x) (nth (Z.to_nat y) (map (map ascii_upper) pat) []) SPACE = ascii_upper ch) as En.
+  { change (@nil Z) with (map ascii_upper []) at 1. rewrite map_nth.
+    change SPACE with (ascii_upper SPACE) at 1. rewrite map_nth. reflexivity. }
+  rewrite En in Hc. rewrite <- Hc. symmetry.
+  assert (char_accepted m ch) as Ha.
+  { unfold ch. destruct (Nat.lt_ge_cases (Z.to_nat y) (length pat)) as [Hy'|Hy'].
+    - assert (In (nth (Z.to_nat y) pat []) pat) as Hr by (apply nth_In; assumption).
+      rewrite Forall_forall in Hv. specialize (Hv _ Hr). rewrite Forall_forall in Hv.
+      destruct (Nat.lt_ge_cases (Z.to_nat x) (length (nth (Z.to_nat y) pat []))) as [Hx'|Hx'].
+      + apply Hv, nth_In, Hx'.
+      + rewrite nth_overflow by assumption. left. reflexivity.
+    - rewrite (nth_overflow pat) by assumption. rewrite nth_nil. left. reflexivity. }
+  apply accepted_upper; assumption.
 Qed.
